@@ -52,8 +52,8 @@ def ext_addr(it, prog, value=0xABCDE, n=20):
 
 def mk_info(it, prog, kind):
     CC, ECC = prog.cls('CurrencyCollection'), prog.cls('ExtraCurrencyCollection')
-    lt = Sym('created_lt', ty='int', key=('created_lt',), not_none=True)
-    at = Sym('created_at', ty='int', key=('created_at',), not_none=True)
+    lt = Sym('created_lt', ty='int', key=('created_lt',), not_none=True, lo=0, hi=(1 << 64) - 1)
+    at = Sym('created_at', ty='int', key=('created_at',), not_none=True, lo=0, hi=(1 << 32) - 1)
     if kind.startswith('internal'):
         extra = DictV()
         if kind == 'internal+extra':
@@ -281,7 +281,7 @@ def history(run, prog, db):
 def wrappers(run, prog, db):
     history(run, prog, db)
     def sym(n):
-        return Sym(n, ty='int', key=('w', n), not_none=True)
+        return Sym(n, ty='int', key=('w', n), not_none=True, lo=0, hi=127)        # any small non-negative integer: fits every integer field of the wrappers
 
     def cases(it):
         out = []
